@@ -182,6 +182,26 @@ func init() {
 		run: func(c *Ctx) {
 			famParseSpec(c, 120000*c.Scale)
 			famConfusables(c)
+			// length boundaries: every repetition family of C20 at the sizes around powers of two and other round limits (the
+			// standard knows no length limit anywhere): implementation = model = Spec
+			{
+				sizes := []int{31, 32, 33, 63, 64, 65, 127, 128, 129, 253, 254, 255, 256, 257, 261, 262, 511, 512, 513, 1023, 1024, 1025}
+				if c.Tier == "thorough" {
+					sizes = append(sizes, 1400, 2047, 2048, 2049, 4095, 4096, 4097)
+				}
+				c.Pool.RunBoth(len(costFamilies)*len(sizes), func(d, sd *Driver, i int) {
+					f, n := costFamilies[i/len(sizes)], sizes[i%len(sizes)]
+					b, in := f.gen(n)
+					var bp *string
+					if b != "" {
+						bp = &b
+					}
+					io := c.cmpParse(d, defaultCfg, bp, in, allFields, true, "length-boundaries", i)
+					if n <= 262 { // the Spec transcription is quadratic and worse in some components: short sizes only; the model covers the rest
+						c.checkAgainstSpec(sd, bp, in, io, "length-boundaries", i)
+					}
+				})
+			}
 			sdp := &specPool{}
 			defer sdp.close()
 			famPathShapes(c, defaultCfg, allFields, "path-shapes", func(d *Driver, base *string, input string, io Obs, idx int) {
